@@ -90,6 +90,17 @@ namespace {
             "form=container;family=SplitListSet;bucket=IterableList;order=less;hash=mix;counter=on;ctor=4,1" );
         reg<EnvDHP, tr_stat<I, il_cmp, hash_mod<4>>, caps_it, mk2<4, 1>>( "SplitListSet_Iterable_DHP_cmp_hashmod4_stat", true,
             "form=container;family=SplitListSet;bucket=IterableList;order=compare;hash=mod4(colliding);counter=cache_friendly;stat=on;ctor=4,1" );
+        // multi-segment bucket tables (more than 1024 buckets): a second block of auxiliary bucket nodes gets allocated
+        reg<EnvHP, tr<M, ml_less, hash_id>, caps_gc, mk2<4096, 1>>( "SplitListSet_Michael_HP_less_hashid_4096x1", false,
+            "form=container;family=SplitListSet;bucket=MichaelList;order=less;hash=identity;counter=on;ctor=4096,1;bucket_table=dynamic(multi-segment)" );
+        reg<EnvHP, tr<M, ml_cmp, hash_mix>, caps_gc, mk2<8192, 2>>( "SplitListSet_Michael_HP_cmp_hashmix_8192x2", false,
+            "form=container;family=SplitListSet;bucket=MichaelList;order=compare;hash=mix;counter=on;ctor=8192,2;bucket_table=dynamic(multi-segment)" );
+        reg<EnvGPB, tr<L, ll_less, hash_mix>, caps_gc, mk2<4096, 1>>( "SplitListSet_Lazy_RCU_GPB_less_hashmix_4096x1", false,
+            "form=container;family=SplitListSet;bucket=LazyList;order=less;hash=mix;counter=on;ctor=4096,1;bucket_table=dynamic(multi-segment)" );
+        reg<EnvDHP, tr<I, il_cmp, hash_id>, caps_it, mk2<8192, 2>>( "SplitListSet_Iterable_DHP_cmp_hashid_8192x2", true,
+            "form=container;family=SplitListSet;bucket=IterableList;order=compare;hash=identity;counter=on;ctor=8192,2;bucket_table=dynamic(multi-segment)" );
+        reg<EnvNogc, tr<M, ml_cmp, hash_id>, caps_nogc, mk2<4096, 1>>( "SplitListSet_Michael_nogc_cmp_hashid_4096x1", false,
+            "form=container;family=SplitListSet;bucket=MichaelList;order=compare;hash=identity;counter=on;ctor=4096,1;bucket_table=dynamic(multi-segment)" );
     }
 }
 C20_MAIN( register_all )
